@@ -3,4 +3,4 @@ Require Extraction.
 Require Import ExtrOcamlBasic.
 Require Import Base Server.
 Extraction Language OCaml.
-Extraction "../ocaml/gen/c09_model.ml" model_krun model_run world0 set_disk set_udict set_fdict lastword expected freshb pub_eqb quiescentb.
+Extraction "../ocaml/gen/c09_model.ml" model_krun model_run world0 set_disk set_udict set_fdict lastword expected freshb pub_eqb quiescentb observe.
